@@ -275,7 +275,29 @@ struct UserClock : quill::UserClockSource
 {
   // a user clock that is not monotonic across threads on purpose: the timestamp ordering clause
   // does not apply to it
-  uint64_t now() const override { return sim::now_ns() + 1700000000ull * 1000000000ull; }
+  uint64_t now() const override
+  {
+    uint64_t const v = sim::now_ns() + 1700000000ull * 1000000000ull;
+    if (t_armed)
+    {
+      t_armed = false;
+      t_first = v;
+    }
+    return v;
+  }
+  // the first value handed to the calling thread since mark(): what a user-clock statement of that call must carry
+  static void mark()
+  {
+    t_armed = true;
+    t_first = 0;
+  }
+  static uint64_t first()
+  {
+    t_armed = false;
+    return t_first;
+  }
+  static inline thread_local bool t_armed = false;
+  static inline thread_local uint64_t t_first = 0;
 };
 
 // user types with formatters that can be told to throw (F5)
